@@ -55,8 +55,8 @@ READONLY_METHODS = {'exists', 'mkdir', 'is_file', 'is_dir', 'endswith', 'startsw
                     'with_suffix', 'with_name', 'format'}
 OTHER = '<other>'                 # any file_type the dispatch does not know
 PROG_OPS = {'Skip', 'Seq', 'Guard', 'Create', 'Append', 'If', 'Loop', 'Call', 'Return',
-            'Raise', 'Delete', 'Rename', 'Try', 'Finally'}
-FILE_EVENTS = ('Guard', 'Create', 'Append', 'Delete', 'Rename')
+            'Raise', 'Delete', 'Rename', 'Try', 'Finally', 'Probe'}
+FILE_EVENTS = ('Guard', 'Create', 'Append', 'Delete', 'Rename', 'Probe')
 
 
 def coq_str(s):
@@ -78,7 +78,7 @@ def prog_coq(p, ind=2):
     pad = ' ' * ind
     if k in ('Skip', 'Return', 'Raise'):
         return pad + k
-    if k in ('Guard', 'Create', 'Append', 'Delete'):
+    if k in ('Guard', 'Create', 'Append', 'Delete', 'Probe'):
         return pad + f'({k} {pexp_coq(p[1])})'
     if k == 'Rename':
         return pad + f'(Rename {pexp_coq(p[1])} {pexp_coq(p[2])})'
@@ -874,8 +874,10 @@ class Interp:
                 if t[0] == 'NE':
                     a, b, e1, e2 = b, a, e2, e1
                 if not definitely_raises(a):
-                    raise TranslateError(
-                        f'existence test of a target that is not a refusal, line {st.lineno}')
+                    # the answer only steers a branch ("remove it if it is there"):
+                    # looking establishes nothing, both branches stay possible
+                    self.merge(env, e1, e2)
+                    return seq([test, ('Probe', t[1]), ('If', a, b)])
                 env.clear()
                 env.update(e2)
                 return seq([test, ('Guard', t[1]), b])
@@ -891,6 +893,16 @@ class Interp:
                     raise TranslateError(f'loop on the existence of a target, line {st.lineno}')
             if isinstance(st, ast.For):
                 it = self.ev(st.iter, env, cls)
+                if it[0] == 'T' and it[1] and all(v[0] == 'P' for v in it[1]) \
+                        and isinstance(st.target, ast.Name) and not st.orelse \
+                        and not any(isinstance(n, (ast.Break, ast.Continue))
+                                    for b in st.body for n in ast.walk(b)):
+                    # a loop over a constant tuple of known paths is its unrolling
+                    out = [head]
+                    for v in it[1]:
+                        env[st.target.id] = v
+                        out.append(self.block(st.body, env, cls))
+                    return seq(out)
                 pathish = it[0] in ('P', 'D', 'X') or (it[0] == 'T' and any(
                     v[0] in ('P', 'D', 'X', 'T') for v in it[1]))
                 if pathish and not isinstance(st.target, ast.Name):
